@@ -123,3 +123,116 @@ def in_bool_context(n: ast.AST) -> bool:
     if isinstance(p, ast.Call) and isinstance(p.func, ast.Name) and p.func.id == 'bool' and p.args and p.args[0] is n:
         return True
     return False
+
+
+# ------------------------------------------------------------------------------------------------
+# Structural patterns with name wildcards: rules must not depend on how locals are called.
+#   $x     matches any plain Name (local, parameter, global); the same $x must match the same name
+#   $$x    matches any expression; the same $$x must match the same expression (by normalised text)
+#   $_ / $$_   anonymous forms (no consistency)
+# Everything else is compared structurally (node types and fields; ctx, positions and type comments ignored).
+import re as _re
+
+_WILD = _re.compile(r'\$\$?[A-Za-z_][A-Za-z0-9_]*')
+_pat_cache: Dict[str, ast.AST] = {}
+
+
+def pat(src: str) -> ast.AST:
+    p = _pat_cache.get(src)
+    if p is None:
+        def repl(m):
+            t = m.group(0)
+            return ('__E_' + t[2:]) if t.startswith('$$') else ('__V_' + t[1:])
+        code = _WILD.sub(repl, src)
+        mod = ast.parse(code)
+        if len(mod.body) != 1:
+            raise ValueError('pattern must be one statement or expression: %r' % src)
+        st = mod.body[0]
+        p = st.value if isinstance(st, ast.Expr) else st
+        _pat_cache[src] = p
+    return p
+
+
+def unify(p: ast.AST, n: ast.AST, b: Optional[Dict[str, str]] = None) -> Optional[Dict[str, str]]:
+    """Bindings if pattern p matches node n (extending b), else None."""
+    b = dict(b) if b is not None else {}
+    return b if _unify(p, n, b) else None
+
+
+def _unify(p, n, b) -> bool:
+    if isinstance(p, ast.Name):
+        if p.id.startswith('__V_'):
+            if not isinstance(n, ast.Name):
+                return False
+            key = p.id[4:]
+            if key == '_':
+                return True
+            if key in b:
+                return b[key] == n.id
+            b[key] = n.id
+            return True
+        if p.id.startswith('__E_'):
+            if not isinstance(n, ast.AST):
+                return False
+            key = p.id[4:]
+            if key == '_':
+                return True
+            t = norm(n)
+            if ('$$' + key) in b:
+                return b['$$' + key] == t
+            b['$$' + key] = t
+            return True
+    if isinstance(p, ast.arg) and p.arg.startswith('__V_'):
+        if not isinstance(n, ast.arg):
+            return False
+        key = p.arg[4:]
+        if key != '_':
+            if key in b and b[key] != n.arg:
+                return False
+            b[key] = n.arg
+        return True
+    if type(p) is not type(n):
+        return False
+    for field in p._fields:
+        if field in ('ctx', 'type_comment', 'kind'):
+            continue
+        pv, nv = getattr(p, field, None), getattr(n, field, None)
+        if isinstance(pv, list):
+            if not isinstance(nv, list) or len(pv) != len(nv):
+                return False
+            for a, c in zip(pv, nv):
+                if isinstance(a, ast.AST):
+                    if not _unify(a, c, b):
+                        return False
+                elif a != c:
+                    return False
+        elif isinstance(pv, ast.AST):
+            if not isinstance(nv, ast.AST) or not _unify(pv, nv, b):
+                return False
+        else:
+            if isinstance(pv, str) and field in ('name', 'id') and pv.startswith('__V_'):
+                key = pv[4:]
+                if key != '_':
+                    if key in b and b[key] != nv:
+                        return False
+                    b[key] = nv
+                continue
+            if pv != nv:
+                return False
+    return True
+
+
+def find_pat(nodes, src: str, b: Optional[Dict[str, str]] = None) -> List[Tuple[ast.AST, Dict[str, str]]]:
+    """All nodes (from an iterable of AST nodes, e.g. FuncInfo.body_nodes()) matching the pattern."""
+    p = pat(src)
+    out = []
+    for n in nodes:
+        if type(n) is type(p) or (isinstance(p, ast.Name) and p.id.startswith('__E_')):
+            r = unify(p, n, b)
+            if r is not None:
+                out.append((n, r))
+    return out
+
+
+def has_pat(nodes, src: str, b: Optional[Dict[str, str]] = None) -> bool:
+    return bool(find_pat(nodes, src, b))
